@@ -23,15 +23,22 @@ Qed.
 
 Lemma window_pos : 0 < act_window.
 Proof. unfold act_window. reflexivity. Qed.
+Lemma Qle_refl0 : 0 <= 0. Proof. lra. Qed.
 
 (* decidable form of the Robust hypothesis *)
 Fixpoint gaps_b (w : Q) (l : list Q) : bool :=
   match l with a :: ((b :: _) as t) => qltb (b + w) a && gaps_b w t | _ => true end.
-Lemma gaps_b_ok w l : gaps_b w l = true -> gaps_ok w l.
+Lemma gaps_b_ok w l : gaps_b w l = true -> gaps_ok w 0 l.
 Proof.
   induction l as [|a t IH]; simpl; [auto|]. destruct t as [|b t'].
   - intros _. split; [exact I|exact I].
-  - rewrite andb_true_iff, qltb_true. intros [H1 H2]. split; [exact H1|apply IH; exact H2].
+  - rewrite andb_true_iff, qltb_true. intros [H1 H2]. split; [lra|apply IH; exact H2].
+Qed.
+Lemma gaps_b_ok_d w d l : gaps_b (w + d) l = true -> gaps_ok w d l.
+Proof.
+  induction l as [|a t IH]; simpl; [auto|]. destruct t as [|b t'].
+  - intros _. split; [exact I|exact I].
+  - rewrite andb_true_iff, qltb_true. intros [H1 H2]. split; [lra|apply IH; exact H2].
 Qed.
 
 Section Stage.
@@ -56,15 +63,15 @@ Theorem stage_targets_exact :
   Qh_of p == Qh_star hot cold /\ Qc_of p == Qc_star hot cold /\ Qr_of p == Qr_star hot cold.
 Proof.
   pose proof (gaps_b_ok _ _ Hrob) as G.
-  repeat split; symmetry; [apply Qh_star_eq|apply Qc_star_eq|apply Qr_star_eq];
-    try exact window_pos; try assumption; try apply grid_of_desc; try (apply grid_of_ne; apply es_ne); try apply stage_covers.
+  repeat split; symmetry; [apply Qh_star_eq with (d := 0) (hot := hot) (cold := cold) (hotR := hot) (coldR := cold)|apply Qc_star_eq with (d := 0) (hot := hot) (cold := cold) (hotR := hot) (coldR := cold)|apply Qr_star_eq with (d := 0) (hot := hot) (cold := cold) (hotR := hot) (coldR := cold)];
+    try exact Qle_refl0; try exact window_pos; try apply nearv_refl; try assumption; try apply grid_of_desc; try (apply grid_of_ne; apply es_ne); try apply stage_covers.
 Qed.
 
 Theorem stage_Qh_is_sup :
   (forall T, Dnet hot cold T <= Qh_of p) /\ (exists T, In T (grid_of es) /\ Dnet hot cold T == Qh_of p).
 Proof.
   pose proof (gaps_b_ok _ _ Hrob) as G.
-  apply Qh_is_sup; try exact window_pos; try assumption; try apply grid_of_desc; try (apply grid_of_ne; apply es_ne); try apply stage_covers.
+  apply Qh_is_sup with (d := 0) (hot := hot) (cold := cold) (hotR := hot) (coldR := cold); try exact Qle_refl0; try exact window_pos; try apply nearv_refl; try assumption; try apply grid_of_desc; try (apply grid_of_ne; apply es_ne); try apply stage_covers.
 Qed.
 
 Theorem stage_balance :
@@ -72,9 +79,9 @@ Theorem stage_balance :
 Proof.
   pose proof (gaps_b_ok _ _ Hrob) as G.
   split; [|split].
-  - apply Qc_balance; try exact window_pos; try assumption; try apply grid_of_desc; try (apply grid_of_ne; apply es_ne); try apply stage_covers.
-  - apply Qr_balance; try exact window_pos; try assumption; try apply grid_of_desc; try (apply grid_of_ne; apply es_ne); try apply stage_covers.
-  - apply targets_nonneg; try exact window_pos; try assumption; try apply grid_of_desc; try (apply grid_of_ne; apply es_ne); try apply stage_covers.
+  - apply Qc_balance with (d := 0) (hot := hot) (cold := cold) (hotR := hot) (coldR := cold); try exact Qle_refl0; try exact window_pos; try apply nearv_refl; try assumption; try apply grid_of_desc; try (apply grid_of_ne; apply es_ne); try apply stage_covers.
+  - apply Qr_balance with (d := 0) (hot := hot) (cold := cold) (hotR := hot) (coldR := cold); try exact Qle_refl0; try exact window_pos; try apply nearv_refl; try assumption; try apply grid_of_desc; try (apply grid_of_ne; apply es_ne); try apply stage_covers.
+  - apply targets_nonneg with (d := 0) (hot := hot) (cold := cold) (hotR := hot) (coldR := cold); try exact Qle_refl0; try exact window_pos; try apply nearv_refl; try assumption; try apply grid_of_desc; try (apply grid_of_ne; apply es_ne); try apply stage_covers.
 Qed.
 
 Theorem stage_curves_exact i T hh hc hn :
@@ -82,17 +89,17 @@ Theorem stage_curves_exact i T hh hc hn :
   hh == heat_below hot T /\ hc == Qc_of p + heat_below cold T /\ hn == hc - hh /\ hn == Qh_of p - Dnet hot cold T /\ 0 <= hn.
 Proof.
   pose proof (gaps_b_ok _ _ Hrob) as G.
-  apply curves_exact; try exact window_pos; try assumption; try apply grid_of_desc; try (apply grid_of_ne; apply es_ne); try apply stage_covers.
+  apply curves_exact with (d := 0) (hot := hot) (cold := cold) (hotR := hot) (coldR := cold); try exact Qle_refl0; try exact window_pos; try apply nearv_refl; try assumption; try apply grid_of_desc; try (apply grid_of_ne; apply es_ne); try apply stage_covers.
 Qed.
 Theorem stage_net_touches_zero : exists i hn, nth_error (pHn p) i = Some hn /\ hn == 0.
 Proof.
   pose proof (gaps_b_ok _ _ Hrob) as G.
-  apply net_touches_zero; try exact window_pos; try assumption; try apply grid_of_desc; try (apply grid_of_ne; apply es_ne); try apply stage_covers.
+  apply net_touches_zero with (d := 0) (hot := hot) (cold := cold) (hotR := hot) (coldR := cold); try exact Qle_refl0; try exact window_pos; try apply nearv_refl; try assumption; try apply grid_of_desc; try (apply grid_of_ne; apply es_ne); try apply stage_covers.
 Qed.
 Theorem stage_spans_exact : hd 0 (pHh p) == duty hot /\ lastq (pHh p) == 0 /\ hd 0 (pHc p) - lastq (pHc p) == duty cold.
 Proof.
   pose proof (gaps_b_ok _ _ Hrob) as G.
-  apply spans_exact; try exact window_pos; try assumption; try apply grid_of_desc; try (apply grid_of_ne; apply es_ne); try apply stage_covers.
+  apply spans_exact with (d := 0) (hot := hot) (cold := cold) (hotR := hot) (coldR := cold); try exact Qle_refl0; try exact window_pos; try apply nearv_refl; try assumption; try apply grid_of_desc; try (apply grid_of_ne; apply es_ne); try apply stage_covers.
 Qed.
 End Stage.
 
@@ -113,3 +120,117 @@ Lemma window_refuted :
   Qc_of (stage_model act_window narrow_hot narrow_cold []) == 50 /\ Qc_star narrow_hot narrow_cold == 40
   /\ gaps_b act_window (grid_of (endpoints (narrow_hot ++ narrow_cold ++ []))) = false.
 Proof. vm_compute. repeat split; reflexivity. Qed.
+
+(* ---------- arbitrary doubles: the model equals the exact optimum of the streams rounded to the grid's 6 decimals ---------- *)
+Lemma rhe_near y : - (1 # 2) <= inject_Z (round_half_even y) - y <= 1 # 2.
+Proof.
+  unfold round_half_even. pose proof (Qfloor_le y) as L. pose proof (Qlt_floor y) as U.
+  set (f := Qfloor y) in *. rewrite inject_Z_plus in U. change (inject_Z 1) with 1 in U.
+  destruct (Qcompare (y - inject_Z f) (1 # 2)) eqn:C.
+  - apply Qeq_alt in C. destruct (Z.even f); [lra|]. rewrite inject_Z_plus. change (inject_Z 1) with 1. lra.
+  - apply Qlt_alt in C. lra.
+  - apply Qgt_alt in C. rewrite inject_Z_plus. change (inject_Z 1) with 1. lra.
+Qed.
+Definition round_err (dp : nat) : Q := (1 # 2) / inject_Z (pow10 dp).
+Lemma pow10_pos dp : (0 < pow10 dp)%Z.
+Proof. unfold pow10. apply Z.pow_pos_nonneg; lia. Qed.
+Lemma round_dp_near dp x : - round_err dp <= round_dp dp x - x <= round_err dp.
+Proof.
+  unfold round_dp, round_err. rewrite Qred_correct. pose proof (pow10_pos dp) as Pp.
+  set (P := pow10 dp) in *. pose proof (rhe_near (x * inject_Z P)) as H.
+  set (r := inject_Z (round_half_even (x * inject_Z P))) in *.
+  assert (PQ : 0 < inject_Z P) by (unfold Qlt; simpl; lia).
+  set (q := inject_Z P) in *.
+  assert (Iq : 0 < / q) by (apply Qinv_lt_0_compat; exact PQ).
+  assert (E : q * / q == 1) by (apply Qmult_inv_r; lra).
+  unfold Qdiv. set (i := / q) in *.
+  assert (A1 : 0 <= (r - x * q + (1 # 2)) * i) by (apply Qmult_le_0_compat; lra).
+  assert (A2 : 0 <= ((1 # 2) - (r - x * q)) * i) by (apply Qmult_le_0_compat; lra).
+  assert (X : x * q * i == x) by (rewrite <- Qmult_assoc, E; ring).
+  split; nra.
+Qed.
+
+(* round the end points of a stream to the grid's decimals *)
+Definition roundv (s : view) : view := mkV (round_dp grid_round_dp (lo s)) (round_dp grid_round_dp (hi s)) (vcp s).
+Definition delta6 : Q := round_err grid_round_dp.
+Lemma nearv_round ss : Forall2 (nearv delta6) ss (map roundv ss).
+Proof.
+  induction ss as [|s ss IH]; simpl; constructor; [|exact IH]. unfold nearv, roundv, delta6; simpl.
+  pose proof (round_dp_near grid_round_dp (lo s)). pose proof (round_dp_near grid_round_dp (hi s)). repeat split; lra.
+Qed.
+Lemma delta6_facts : 0 <= delta6 /\ delta6 < act_window.
+Proof. unfold delta6, round_err, act_window. vm_compute. split; [discriminate|reflexivity]. Qed.
+
+Definition wfs_b (ss : list view) : bool := forallb (fun s => qltb (lo s) (hi s) && qleb 0 (vcp s)) ss.
+Lemma wfs_b_ok ss : wfs_b ss = true -> wfs ss.
+Proof.
+  unfold wfs_b, wfs. rewrite forallb_forall, Forall_forall. intros H s Hs. specialize (H s Hs).
+  apply andb_true_iff in H. destruct H as [A B]. apply qltb_true in A. apply qleb_true in B. split; assumption.
+Qed.
+
+Section StageRounded.
+Variables hot cold extra : list view.
+Let hotR := map roundv hot.
+Let coldR := map roundv cold.
+Hypothesis Wh : wfs_b hotR = true.          (* rounded spans still positive, CP >= 0 *)
+Hypothesis Wc : wfs_b coldR = true.
+Hypothesis Hne : hot ++ cold <> [].
+Let es := endpoints (hot ++ cold ++ extra).
+Hypothesis Hrob : gaps_b (act_window + delta6) (grid_of es) = true.
+Let p := stage_model act_window hot cold extra.
+
+Lemma esR_ne : es <> [].
+Proof. unfold es. destruct hot as [|s ?]; [destruct cold as [|s' ?]; [exfalso; apply Hne; reflexivity|]|]; simpl; discriminate. Qed.
+Lemma endpoints_round ss e : In e (endpoints (map roundv ss)) -> exists e0, In e0 (endpoints ss) /\ e = round_dp grid_round_dp e0.
+Proof.
+  unfold endpoints. rewrite flat_map_concat_map, map_map, <- flat_map_concat_map. intro H. apply in_flat_map in H.
+  destruct H as [s [Hs He]]. simpl in He. destruct He as [E|[E|[]]]; subst.
+  - exists (lo s). split; [apply in_flat_map; exists s; split; [exact Hs|left; reflexivity]|reflexivity].
+  - exists (hi s). split; [apply in_flat_map; exists s; split; [exact Hs|right; left; reflexivity]|reflexivity].
+Qed.
+Lemma stageR_covers : covers (grid_of es) (eps_all hotR coldR).
+Proof.
+  intros e He. unfold eps_all in He. apply in_app_or in He.
+  assert (K : exists e0, In e0 es /\ e = round_dp grid_round_dp e0).
+  { destruct He as [He|He]; destruct (endpoints_round _ e He) as [e0 [H0 E]]; exists e0; (split; [|exact E]);
+    unfold es, endpoints in *; rewrite !flat_map_app; apply in_or_app; [left; exact H0|right; apply in_or_app; left; exact H0]. }
+  destruct K as [e0 [H0 E]]. subst e. unfold grid_of. apply sorted_of_has. apply in_map. exact H0.
+Qed.
+
+Theorem stage_rounded_targets_exact :
+  Qh_of p == Qh_star hotR coldR /\ Qc_of p == Qc_star hotR coldR /\ Qr_of p == Qr_star hotR coldR.
+Proof.
+  destruct delta6_facts as [D0 D1]. pose proof (gaps_b_ok_d _ _ _ Hrob) as G.
+  pose proof (wfs_b_ok _ Wh) as WH. pose proof (wfs_b_ok _ Wc) as WC.
+  repeat split; symmetry;
+    [apply Qh_star_eq with (d := delta6) (hot := hot) (cold := cold)
+    |apply Qc_star_eq with (d := delta6) (hot := hot) (cold := cold)
+    |apply Qr_star_eq with (d := delta6) (hot := hot) (cold := cold)];
+    try assumption; try apply nearv_round; try apply grid_of_desc; try (apply grid_of_ne; apply esR_ne); try apply stageR_covers.
+Qed.
+Theorem stage_rounded_Qh_is_sup :
+  (forall T, Dnet hotR coldR T <= Qh_of p) /\ (exists T, In T (grid_of es) /\ Dnet hotR coldR T == Qh_of p).
+Proof.
+  destruct delta6_facts as [D0 D1]. pose proof (gaps_b_ok_d _ _ _ Hrob) as G.
+  pose proof (wfs_b_ok _ Wh) as WH. pose proof (wfs_b_ok _ Wc) as WC.
+  apply Qh_is_sup with (d := delta6) (hot := hot) (cold := cold) (hotR := hotR) (coldR := coldR);
+    try assumption; try apply nearv_round; try apply grid_of_desc; try (apply grid_of_ne; apply esR_ne); try apply stageR_covers.
+Qed.
+End StageRounded.
+
+(* non-vacuity off the lattice: end points with 7 decimals *)
+Example ex_rounded :
+  let hot := [mkV (350000004 # 10000000) 245 (3#20)] in let cold := [mkV 25 (1850000006 # 10000000) (1#5)] in
+  wfs_b (map roundv hot) = true /\ wfs_b (map roundv cold) = true
+  /\ gaps_b (act_window + delta6) (grid_of (endpoints (hot ++ cold ++ []))) = true
+  /\ forallb (fun e => qeqb (round_dp grid_round_dp e) e) (endpoints (hot ++ cold)) = false.
+Proof. vm_compute. repeat split; reflexivity. Qed.
+
+Lemma any_covering_grid w hot cold g : 0 < w -> wfs hot -> wfs cold -> desc g -> g <> [] -> covers g (eps_all hot cold) -> gaps_ok w 0 g ->
+  Qh_star hot cold == Qh_of (pta w hot cold g) /\ Qc_star hot cold == Qc_of (pta w hot cold g)
+  /\ Qr_star hot cold == Qr_of (pta w hot cold g).
+Proof.
+  intros. repeat split;
+    [apply Qh_star_eq with (d := 0) (hot := hot) (cold := cold)|apply Qc_star_eq with (d := 0) (hot := hot) (cold := cold)
+    |apply Qr_star_eq with (d := 0) (hot := hot) (cold := cold)]; try assumption; try apply nearv_refl; try exact Qle_refl0.
+Qed.
